@@ -585,6 +585,16 @@ theorem sstep_inv {g : Bool} (cfg : Cfg) {s : State V} {sess : Sess V} (kept : O
         · split
           · exact ⟨hs, ⟨hb.ndD, hb.ndN, hb.repD, hb.repN, hb.noSid, hb.noNid⟩⟩
           · exact ⟨inv_deliver _ hs hb, ⟨hb.ndD, hb.ndN, hb.repD, hb.repN, hb.noSid, hb.noNid⟩⟩
+    | pushNW =>
+      simp only [sstepBack]
+      split
+      · exact ⟨hs, hb⟩
+      · simp only [backPush]
+        split
+        · exact ⟨hs, hb⟩
+        · split
+          · exact ⟨hs, ⟨hb.ndD, hb.ndN, hb.repD, hb.repN, hb.noSid, hb.noNid⟩⟩
+          · exact ⟨inv_deliver _ hs hb, ⟨hb.ndD, hb.ndN, hb.repD, hb.repN, hb.noSid, hb.noNid⟩⟩
     | query =>
       simp only [sstepBack]
       split
@@ -813,6 +823,16 @@ theorem sstep_replay (cfg : Cfg) (s : State V) (sess : Sess V) (kept : Option St
         · split
           · simp
           · exact deliver_replay _ _ _ _
+    | pushNW =>
+      simp only [sstepBack]
+      split
+      · simp
+      · simp only [backPush]
+        split
+        · simp
+        · split
+          · simp
+          · exact deliver_replay _ _ _ _
     | query =>
       simp only [sstepBack]
       split
@@ -855,6 +875,16 @@ theorem sstep_evs_conn (cfg : Cfg) (s : State V) (sess : Sess V) (kept : Option 
         · split
           · simp
           · exact deliver_evs_conn _ _ _
+    | pushNW =>
+      simp only [sstepBack]
+      split
+      · simp
+      · simp only [backPush]
+        split
+        · simp
+        · split
+          · simp
+          · exact deliver_evs_conn _ _ _
     | query =>
       simp only [sstepBack]
       split <;> simp
@@ -886,6 +916,16 @@ theorem sstep_handles (cfg : Cfg) (s : State V) (sess : Sess V) (kept : Option S
     simp only [sstep]
     cases op with
     | push =>
+      simp only [sstepBack]
+      split
+      · simp
+      · simp only [backPush]
+        split
+        · simp
+        · split
+          · simp
+          · exact deliver_handles _ _ _
+    | pushNW =>
       simp only [sstepBack]
       split
       · simp
